@@ -69,7 +69,7 @@ def _is_view(eng: Engine, func, args, kwargs, out) -> bool:
     return all(o.numel() == 0 or eng._key(o) in ins for o in outs)
 
 
-INPLACE_VIEWS = {"squeeze_", "unsqueeze_", "transpose_", "t_", "as_strided_", "detach_", "swapaxes_", "swapdims_", "requires_grad_", "set_"}
+INPLACE_VIEWS = {"is_pinned", "is_same_size", "sym_size", "sym_numel", "sym_stride", "sym_storage_offset", "squeeze_", "unsqueeze_", "transpose_", "t_", "as_strided_", "detach_", "swapaxes_", "swapdims_", "requires_grad_", "set_"}
 
 
 def dispatch_symbolic(eng: Engine, func, args, kwargs):
